@@ -168,6 +168,24 @@ func tombstoneCallback(c *core.Ctx, rule string, fn *ssa.Function, delNames, put
 // callbacksOf: the per-entry callbacks a function hands to ForEach — anonymous
 // closures, or methods passed as method values (ir.WithClosures resolves both).
 func callbacksOf(fn *ssa.Function) []*ssa.Function {
+	out := callbacksIn(fn)
+	if len(out) > 0 {
+		return out
+	}
+	// the traversal (and its callback) may have been moved into a same-package helper fn calls
+	for _, ci := range ir.Calls(fn, nil) {
+		h := ci.Common().StaticCallee()
+		if h == nil || h == fn || h.Pkg != fn.Pkg || len(h.Blocks) == 0 || len(h.Blocks) > 40 {
+			continue
+		}
+		if cbs := callbacksIn(h); len(cbs) > 0 {
+			return cbs
+		}
+	}
+	return nil
+}
+
+func callbacksIn(fn *ssa.Function) []*ssa.Function {
 	var out []*ssa.Function
 	for _, f := range ir.WithClosures(fn) {
 		if f == fn || f.Synthetic != "" {
@@ -422,6 +440,17 @@ func runC10(c *core.Ctx) {
 						okP = true
 					}
 				}
+				// the private worker inlined: the key is built here with the package's key builder
+				for _, ci := range ir.Calls(fn, func(ci ssa.CallInstruction) bool {
+					f := ci.Common().StaticCallee()
+					return f != nil && f.Name() == "makePrefixedKey"
+				}) {
+					if a := ci.Common().Args; len(a) == 3 {
+						if v, okk := ir.ConstInt(a[1]); okk && v == k {
+							okP = true
+						}
+					}
+				}
 				c.Decide(okP, "C10.prefix", fn, spec.fn+" uses the ST_STORAGE prefix", c.P.Rel(fn.Pos()), "")
 			}
 			if fn := c.Fn(pkNatStorage, "CacheDB.NewIterator"); fn != nil {
@@ -540,6 +569,10 @@ func runC11(c *core.Ctx) {
 			continue
 		}
 		calls := ir.Calls(fn, func(ci ssa.CallInstruction) bool { return ci.Common().StaticCallee() == fe })
+		if len(calls) == 0 {
+			// the traversal may sit in a private helper (`writeChangesTo(w)`)
+			calls = ir.CallsThrough(fn, func(ci ssa.CallInstruction) bool { return ci.Common().StaticCallee() == fe }, 1)
+		}
 		okOnly := len(calls) == 1
 		for _, b := range fn.Blocks {
 			for _, in := range b.Instrs {
